@@ -243,7 +243,7 @@ def SrepeatArr (s : SArr) (k : Nat) (toks : List Tok) : Except Err SArr :=
   if toks.length ≠ k * s.depth * n then .error .valueError
   else if s.bonds.isSome && n * max k 1 != n * k then .error .valueError
   else .ok { s with atoms := (List.range (n * k)).map (fun t =>
-                        ⟨(s.at (t % n)).ann, (List.range s.depth).map (fun m => toks.getD (m * (n * k) + t) 0)⟩)
+                        ⟨(s.at (t % n)).ann, (List.range s.depth).map (fun m => toks.getD (((t / n) * s.depth + m) * n + t % n) 0)⟩)
                     bonds := s.bonds.map (fun bs => (bondsJoin (List.replicate (max k 1) (n, bs))).2) }
 
 def SfromTemplate (s : SArr) (coord : List (List Tok)) (box : Option (List Tok)) : Except Err SArr :=
